@@ -26,6 +26,9 @@ VARIANTS = {
     # a parameter excluded from preconditioning precedes the preconditioned
     # ones (index bookkeeping of the per-parameter views)
     "skipfirst": {"skip_preconditioning_rank_lt": 2},
+    # refresh interval 2: the second step of every history is a skip step,
+    # whose placeholder results must have the structure of a real refresh
+    "interval2": {"preconditioning_compute_steps": 2},
 }
 SKIPFIRST_SHAPES = {"a_bias": [5], "kernel": [4, 3], "z": [3, 3]}
 EVENTS = ["gA", "gB", "gBig1"]   # gBig1: first leaf times 2^60 (its root fails)
